@@ -88,7 +88,7 @@ func UnHex(s string) []byte {
 }
 
 // ---- model driver (compiled Lean executable speaking the line protocol)
-var DriverPath = "/verif/lean/.lake/build/bin/driver"
+var DriverPath = "/verif/lean/.lake/build/bin/driver" // overridden by -driver
 
 // Model runs the driver over the given operation lines and returns one answer per line.
 func Model(lines []string) ([]string, error) {
